@@ -36,7 +36,7 @@ ASSUMPTIONS = [
     "memory bound: 64 MiB + 64 x bytes sent by the adversary",
 ]
 NONTRIVIAL = ["cell"]
-DEADLINE = {"quick": 80, "thorough": 1500}
+DEADLINE = {"quick": 250, "thorough": 1500}
 WATCHDOG = {"quick": 900, "thorough": 5400}
 
 QUICK_SC = ["ssl3-rsa", "ssl3-ecdhe_rsa-clientauth", "tls10-dhe_rsa", "tls11-ecdhe_ecdsa", "tls12-rsa",
